@@ -1,7 +1,7 @@
 /-
   C12(a) — packetNumberIndexedQueue[T] of core/internal/congestion/bbr/packet_number_indexed_queue.go
   on top of the RingBuffer model.  Packet numbers and `numberOfPresentEntries` are Go ints
-  (`Int` here; `invalidPacketNumber = -1`).  The payload `T` is a `Nat` token (the container
+  (`Int` here; `invalidPacketNumber = -1`).  The payload `T` is a type parameter (the container
   never inspects it).  Loops (`clearup`, `RemoveUpTo`, the gap filling of `Emplace`) carry a
   fuel equal to the number of slots in use; running out of fuel is reported as `panic`, so the
   no-panic theorem also shows the fuel is always sufficient (the model runs the loops to
@@ -13,42 +13,44 @@ namespace Hy.Pnq
 open Hy Hy.Ring
 
 /-- `entryWrapper[T]` -/
-structure Entry where
+structure Entry (α : Type) where
   present : Bool
-  val : Nat
+  val : α
   deriving Repr, DecidableEq
 
-instance : Inhabited Entry := ⟨⟨false, 0⟩⟩
+instance {α : Type} [Inhabited α] : Inhabited (Entry α) := ⟨⟨false, default⟩⟩
 
 def invalidPn : Int := -1
 
-structure PNQ where
-  entries : RB Entry
+structure PNQ (α : Type) where
+  entries : RB (Entry α)
   present : Int        -- numberOfPresentEntries
   first : Int          -- firstPacket
   deriving Repr, DecidableEq
 
-/-- `newPacketNumberIndexedQueue(size)` -/
-def new (size : Nat) : PNQ := { entries := init size, present := 0, first := invalidPn }
+variable {α : Type} [Inhabited α]
 
-def PNQ.isEmpty (q : PNQ) : Bool := q.present == 0
+/-- `newPacketNumberIndexedQueue(size)` -/
+def new (size : Nat) : PNQ α := { entries := init size, present := 0, first := invalidPn }
+
+def PNQ.isEmpty (q : PNQ α) : Bool := q.present == 0
 
 /-- `EntrySlotsUsed()` -/
-def PNQ.slotsUsed (q : PNQ) : Nat := q.entries.len
+def PNQ.slotsUsed (q : PNQ α) : Nat := q.entries.len
 
 /-- `LastPacket()` -/
-def PNQ.lastPacket (q : PNQ) : Int :=
+def PNQ.lastPacket (q : PNQ α) : Int :=
   if q.isEmpty then invalidPn else q.first + ((q.entries.len : Int) - 1)
 
 /-- `for i := 0; i < gap; i++ { p.entries.PushBack(entryWrapper[T]{}) }` -/
-def pushN : Nat → RB Entry → Res (RB Entry)
+def pushN : Nat → RB (Entry α) → Res (RB (Entry α))
   | 0, r => Res.ok r
   | n + 1, r => do
     let r' ← r.pushBack default
     pushN n r'
 
 /-- `Emplace(packetNumber, entry)`; `v = none` is `entry == nil` -/
-def PNQ.emplace (q : PNQ) (pn : Int) (v : Option Nat) : Res (Bool × PNQ) :=
+def PNQ.emplace (q : PNQ α) (pn : Int) (v : Option α) : Res (Bool × PNQ α) :=
   match v with
   | none => Res.ok (false, q)
   | some v =>
@@ -65,7 +67,7 @@ def PNQ.emplace (q : PNQ) (pn : Int) (v : Option Nat) : Res (Bool × PNQ) :=
       pure (true, { q with entries := e2, present := q.present + 1 })
 
 /-- `getEntryWraper`: offset and wrapper of a present entry -/
-def PNQ.getWrapper (q : PNQ) (pn : Int) : Res (Option (Int × Entry)) :=
+def PNQ.getWrapper (q : PNQ α) (pn : Int) : Res (Option (Int × Entry α)) :=
   if pn = invalidPn ∨ q.isEmpty ∨ pn < q.first then Res.ok none
   else
     let offset : Int := pn - q.first
@@ -75,12 +77,12 @@ def PNQ.getWrapper (q : PNQ) (pn : Int) : Res (Option (Int × Entry)) :=
       if !ew.present then pure none else pure (some (offset, ew))
 
 /-- `GetEntry` (the value behind the returned pointer, `none` = nil) -/
-def PNQ.getEntry (q : PNQ) (pn : Int) : Res (Option Nat) := do
+def PNQ.getEntry (q : PNQ α) (pn : Int) : Res (Option α) := do
   let w ← q.getWrapper pn
   pure (w.map (fun p => p.2.val))
 
 /-- the loop of `clearup()` -/
-def clearupLoop : Nat → PNQ → Res PNQ
+def clearupLoop : Nat → PNQ α → Res (PNQ α)
   | 0, q =>
     if q.entries.empty then Res.ok q
     else do
@@ -96,25 +98,25 @@ def clearupLoop : Nat → PNQ → Res PNQ
         clearupLoop k { q with entries := e, first := q.first + 1 }
 
 /-- `clearup()` -/
-def PNQ.clearup (q : PNQ) : Res PNQ := do
+def PNQ.clearup (q : PNQ α) : Res (PNQ α) := do
   let q1 ← clearupLoop q.entries.len q
   pure (if q1.entries.empty then { q1 with first := invalidPn } else q1)
 
 /-- `Remove(packetNumber, f)`: result, the value handed to `f`, the new queue -/
-def PNQ.remove (q : PNQ) (pn : Int) : Res (Option Nat × PNQ) := do
+def PNQ.remove (q : PNQ α) (pn : Int) : Res (Option α × PNQ α) := do
   let w ← q.getWrapper pn
   match w with
   | none => pure (none, q)
   | some (off, ew) =>
     let e ← q.entries.modifyOffset off (fun w => { w with present := false })
-    let q1 : PNQ := { q with entries := e, present := q.present - 1 }
+    let q1 : PNQ α := { q with entries := e, present := q.present - 1 }
     if pn = q1.first then do
       let q2 ← q1.clearup
       pure (some ew.val, q2)
     else pure (some ew.val, q1)
 
 /-- the loop of `RemoveUpTo(packetNumber)` -/
-def removeLoop (n : Int) : Nat → PNQ → Res PNQ
+def removeLoop (n : Int) : Nat → PNQ α → Res (PNQ α)
   | 0, q =>
     if !q.entries.empty ∧ q.first ≠ invalidPn ∧ q.first < n then Res.panic   -- fuel exhausted (never)
     else Res.ok q
@@ -127,7 +129,7 @@ def removeLoop (n : Int) : Nat → PNQ → Res PNQ
     else Res.ok q
 
 /-- `RemoveUpTo(packetNumber)` -/
-def PNQ.removeUpTo (q : PNQ) (n : Int) : Res PNQ := do
+def PNQ.removeUpTo (q : PNQ α) (n : Int) : Res (PNQ α) := do
   let q1 ← removeLoop n q.entries.len q
   q1.clearup
 
@@ -135,33 +137,34 @@ end Hy.Pnq
 
 namespace Hy.Pnq
 open Hy Hy.Ring
+variable {α : Type} [Inhabited α]
 
 /-! ### operation sequences (driver, `pnq_no_panic`) -/
 
-inductive Op where
-  | emplace (pn : Int) (v : Option Nat)
+inductive Op (α : Type) where
+  | emplace (pn : Int) (v : Option α)
   | getEntry (pn : Int)
   | remove (pn : Int)
   | removeUpTo (n : Int)
   deriving Repr
 
 /-- result reported to the caller -/
-inductive Ret where
-  | flag (b : Bool) | entry (v : Option Nat) | unit
+inductive Ret (α : Type) where
+  | flag (b : Bool) | entry (v : Option α) | unit
   deriving Repr, DecidableEq
 
-def PNQ.step (q : PNQ) : Op → Res (PNQ × Ret)
+def PNQ.step (q : PNQ α) : Op α → Res (PNQ α × Ret α)
   | .emplace pn v => do let (b, q') ← q.emplace pn v; pure (q', .flag b)
   | .getEntry pn => do let v ← q.getEntry pn; pure (q, .entry v)
   | .remove pn => do let (v, q') ← q.remove pn; pure (q', .entry v)
   | .removeUpTo n => do let q' ← q.removeUpTo n; pure (q', .unit)
 
 /-- QUIC packet numbers are non-negative; −1 is the `invalidPacketNumber` marker -/
-def Op.wellFormed : Op → Prop
+def Op.wellFormed : Op α → Prop
   | .emplace pn _ => -1 ≤ pn
   | _ => True
 
-def PNQ.run : PNQ → List Op → Res PNQ
+def PNQ.run : PNQ α → List (Op α) → Res (PNQ α)
   | q, [] => Res.ok q
   | q, op :: ops => do
     let (q', _) ← q.step op
